@@ -337,7 +337,7 @@ Proof.
       pose proof (rel_cdef pv sv bound u fl W sc e st E stL var W1 st2 E2 st3 d Hrel Hw1 Hd
                     (rel_cells_ext pv sv bound u _ _ _ _ _ _ _ _ Hrel2 Hx3) HxE2 Hfr) as Hrel3.
       fold c0 p0 e' in Hrel3. rewrite Hdk in Hrel3. fold fl' in Hrel3.
-      set (W2 := world_addF (world_addD W d) c0 p0 d) in *.
+      set (W2 := world_addF (world_addD W d) c0 p0 (KF ka kr)) in *.
       set (stL3 := set_cell st3 p0 (VFun (fd_fid d))) in *.
       set (bpre := fst (agen_one u l (IDefine var)) ++ (b1 ++ fst (agen_one u l1 (IAssign var rv)))).
       assert (Hxpre : ExecS E bpre stL (ROk (E2, SigNormal) stL3)).
@@ -557,7 +557,8 @@ Proof.
       + cbn [print_state SyltSem.clos length]. unfold fid_of. rewrite Nat.add_0_r, Pos2Nat.id. exact Hnclo0.
       + intros v [].
       + intros v [].
-      + intros t0 p0 _ H. rewrite pre_ncell_env in H. discriminate. }
+      + intros t0 p0 _ H. rewrite pre_ncell_env in H. discriminate.
+      + intros c c' p K K' []. }
   assert (Hctx0 : ctx_ok bound [] [] PLeaf bound (cg + 1)).
   { constructor; [lia | intros t0 _; reflexivity | intros t0 [] | intros t0 _; apply pre_ncell_env]. }
   (* the outer definitions *)
@@ -586,7 +587,8 @@ Proof.
   destruct (Hemit bg lg Hsg Hsb) as (Hcode & Hnlp).
   unfold lua_result. fold code. rewrite Hcode.
   (* the call of start *)
-  destruct (r_fund _ _ _ _ _ _ _ _ _ _ _ s _ Hrelg Hars ltac:(discriminate)) as (cf & pf & d & Hlks & Hnth & HlkL & Hcell & Hd & Hdk).
+  destruct (r_fund _ _ _ _ _ _ _ _ _ _ _ s _ Hrelg Hars ltac:(discriminate)) as (cf & pf & d & Hlks & Hnth & HlkL & Hcell & Hdk & Hreld).
+  assert (Hd : w_D (world_addD Wg d) d) by (right; reflexivity).
   assert (Hpk : fd_pk d = []) by (unfold dkind in Hdk; inversion Hdk; reflexivity).
   assert (Hbind : SyltSem.bind (SyltSem.read_cell cf) (fun fv => SyltSem.apply (S (S f')) fv []) stg =
                   SyltSem.apply (S (S f')) (SyltSem.SClos (fd_ci d)) [] stg)
@@ -596,9 +598,9 @@ Proof.
   assert (Hinta : interesting ra).
   { destruct ra as [v|o|cc]; [exact I | | destruct cc; exact I]. cbn in Hgood. destruct o; try destruct Hgood; try exact I.
     exfalso. pose proof (SemSane.s_apply _ (SemSane.sane_all (S (S f'))) (SyltSem.SClos (fd_ci d)) [] stg) as Hq. rewrite Hap in Hq. exact Hq. }
-  assert (Hargs0 : Forall3 (arel Wg) (fd_pk d) [] []) by (rewrite Hpk; constructor).
-  pose proof (proj1 (proj2 (proj2 (proj2 (proj2 (proj2 (P_all pv bound bound u (S (S f')) flg Wg)))))) d [] [] scg eg stg Eg stLg ra sta
-                    Hrelg Hd Hargs0 Hap Hinta) as Hcall.
+  assert (Hargs0 : Forall3 (arel (world_addD Wg d)) (fd_pk d) [] []) by (rewrite Hpk; constructor).
+  pose proof (proj1 (proj2 (proj2 (proj2 (proj2 (proj2 (P_all pv bound bound u (S (S f')) flg (world_addD Wg d))))))) d [] [] scg eg stg Eg stLg ra sta
+                    Hreld Hd Hargs0 Hap Hinta) as Hcall.
   assert (Hev_s : Eval Eg (EVar (fmt_var s)) stLg (ROk (VFun (fd_fid d)) stLg)).
   { rewrite <- Hcell. apply Eval_local. exact HlkL. }
   destruct ra as [v|o|cc]; [| |destruct Hcall].
